@@ -44,6 +44,15 @@ add('C19', 'fresh-process outcome table as oracle; recorders on schema_valid / v
 add('C18', 'differential monitor: the real Python functions vs their JavaScript twins loaded in place from js/src by a long-lived node bridge, over the C06/C11 grids',
     'Each of the seven ported pairs is driven with the same inputs on both sides (decimal strings x precision, durations x precision, documented h:m:s strings, mark spellings, every scoring-table key and spelling variants, every Tyrving table x age x marks x forms incl. hand-timed tenths, every QuadKids row); values compared numerically / exactly, refusal compared with refusal.',
     'Only the import lines of js/src are rewritten (to require()); JS and Python doubles agree via JSON shortest round-trip text.', 'C18')
+add('C02', 'recorder with before/after snapshots on the six mutators of the real HighJumpCompetition; shadow-log rule book, state-order and structural invariant monitors; bounded BFS of the real object + random walks',
+    'At every distinct reachable state of the real object (2 athletes, 2 regular + 1 jump-off heights in quick; deeper and 3 athletes in thorough) the whole legal and illegal alphabet is applied: refusals must be RuleViolation and leave the full snapshot untouched, acceptance/refusal must agree with the rule text where it is determinate, state only moves forward. Random walks with up to 4 athletes beyond the bound.',
+    'Three regions the rule text leaves open are carved out (recorded, not judged on accept/refuse); depth beyond the bound is sampled.', 'C02')
+add('C03', 'terminal-state hook of the recorder: places and bests recomputed from the shadow cards (own countback, jump-off survivor) for every finished / won / drawn state reached',
+    'All complete competitions reachable by rule-conforming continuations within the bound (2 athletes 2+2, 3 athletes 1+1 in quick; deeper in thorough) plus seeded random complete competitions with up to 4 athletes, 4+3 heights and random jumping orders; evidence counts terminal states by kind and countback level needed.',
+    'Order among beaten jump-off participants not judged; degenerate jump-offs among athletes with no clearance unspecified.', 'C03')
+add('C08', 'replay monitors at reachable states: from_actions on the full snapshot, card export/import and per-height re-orderings compared on state/heights/cards/bests/places',
+    'States from the full-alphabet BFS (so logs coexist with refused calls), random walks and random complete competitions; every k-th accepted call triggers three independent re-executions of the real code, with all interleavings when there are at most 60 and 11 systematic/seeded ones otherwise.',
+    'ranked_jumpers order and internal flags deliberately not compared for the card and re-ordering clauses.', 'C08')
 _all = ['C%02d' % i for i in range(1, 20)]
 for p in _all:
     if p not in CHECKS:
